@@ -68,6 +68,8 @@ func seededBytes(seed int64, tag string, n int) []byte {
 // Content materialises a content spec: tokens joined by '.':
 //
 //	A..Y       one 64KiB pseudo-random block (derived from seed and the letter)
+//	a..y       the "weak twin" of block A..Y: three neighbouring bytes changed by +1, -2, +1,
+//	           which keeps both sums of the rolling checksum (same weak hash, other strong hash)
 //	Z          one 64KiB block of zeros
 //	A/123      the first 123 bytes of block A
 //	r7/5000    5000 pseudo-random bytes of stream 7 (any length; same prefix for same stream)
@@ -89,6 +91,8 @@ func Content(spec string, seed int64) []byte {
 			out = append(out, make([]byte, B)...)
 		case len(tok) == 1 && tok[0] >= 'A' && tok[0] <= 'Y':
 			out = append(out, seededBytes(seed, tok, B)...)
+		case len(tok) == 1 && tok[0] >= 'a' && tok[0] <= 'y':
+			out = append(out, WeakTwin(seededBytes(seed, strings.ToUpper(tok), B))...)
 		case len(tok) > 2 && tok[1] == '/' && tok[0] >= 'A' && tok[0] <= 'Y':
 			n, err := strconv.Atoi(tok[2:])
 			if err != nil || n > B {
@@ -122,6 +126,22 @@ func Content(spec string, seed int64) []byte {
 		}
 	}
 	return out
+}
+
+// WeakTwin returns a copy of b in which three neighbouring bytes are changed by
+// +1, -2, +1 (no byte wraps): the byte sum and the position-weighted byte sum, and
+// hence wsync's weak hash of any window containing all three, stay the same.
+func WeakTwin(b []byte) []byte {
+	out := append([]byte{}, b...)
+	for i := len(b) / 3; i+2 < len(b); i++ {
+		if out[i] < 255 && out[i+1] >= 2 && out[i+2] < 255 {
+			out[i]++
+			out[i+1] -= 2
+			out[i+2]++
+			return out
+		}
+	}
+	panic("wh.WeakTwin: no suitable position")
 }
 
 // Materialize writes the build under dir (created).
